@@ -32,6 +32,8 @@ func main() {
 		cmdBaseline(os.Args[2:])
 	case "list":
 		cmdList(os.Args[2:])
+	case "replay":
+		cmdReplay(os.Args[2:])
 	default:
 		usage()
 	}
